@@ -177,6 +177,7 @@ type Explorer struct {
 	Stats       WorkerStats
 	Solver      SolverStats
 	PathsByHarn map[string]int
+	DoneByHarn  map[string]int // paths that ran to the end of the harness
 	dumped      int
 	Samples     []map[string]string
 }
@@ -199,7 +200,7 @@ func NewExplorer(P *Program, opt Options) *Explorer {
 	}
 	e := &Explorer{P: P, opt: opt, openClasses: opt.OpenClasses,
 		Asserts: map[string]*AssertStat{}, Reached: map[string]int{}, Crashes: map[string]int{},
-		Funcs: map[string]int{}, PathsByHarn: map[string]int{}}
+		Funcs: map[string]int{}, PathsByHarn: map[string]int{}, DoneByHarn: map[string]int{}}
 	if e.openClasses == nil {
 		e.openClasses = map[string]bool{}
 	}
@@ -616,6 +617,9 @@ func (w *Worker) runOnce() (cres ConcreteResult) {
 	}
 	e.mu.Lock()
 	e.PathsByHarn[i.harness]++
+	if outcome == "completed" {
+		e.DoneByHarn[i.harness]++
+	}
 	for id, n := range i.reached {
 		e.Reached[i.harness+"/"+id] += n
 	}
